@@ -203,7 +203,7 @@ def _model_op(ctx, m, impl, f: FuncInfo, neg, ci, stem):
             kwargs[pname] = val
         else:
             problems.append(f"`{pname}` is not forwarded")
-    val = mini.run_function(f, [A, B], kwargs)
+    val = mini.run_top(f, [A, B], kwargs)
     if not isinstance(val, _ImplCall):
         return [f"{f.name} does not return a call of _escaped_like_impl"]
     fnarg = val.bound.get(impl.params[0])
@@ -231,7 +231,7 @@ def _model_method(ctx, m, meth: FuncInfo, ci, stem):
         return t if isinstance(t, FuncInfo) else NotImplemented
 
     mini = Mini2(name_hook=name_hook, what=meth.qualname)
-    val = mini.run_function(meth, [SELF, O], {"escape": ESC, "autoescape": AUTO})
+    val = mini.run_top(meth, [SELF, O], {"escape": ESC, "autoescape": AUTO})
     if not (isinstance(val, tuple) and val and val[0] == "operate"):
         return ["does not return self.operate(...)"]
     _, op, args, kws = val
@@ -534,7 +534,7 @@ def _run_visitor(ctx, cls: ClassInfo, fn: FuncInfo, escape, own_operator=True, s
     mini = Mini2(name_hook=name_hook, func_resolver=resolver, what=f"{cls.qualname}.{fn.name}")
     operator = modobj.m_getattr(own if own_operator else "some_other_op", mini, None)
     binary = _Binary(_Term("L"), _Term("R"), {} if escape is None else {"escape": escape})
-    val = mini.run_function(fn, [selfobj, binary, operator], {})
+    val = mini.run_top(fn, [selfobj, binary, operator], {}, selfobj)
     return val, binary, selfobj
 
 
@@ -801,7 +801,7 @@ def _operand_lowers(ctx, cls, fn: FuncInfo) -> bool:
         element = ModelObj("element", {"element": _Term("L")})
         selfobj = ModelSelf(ctx.index, cls, methods={"process": _render_operand})
         mini = Mini2(what=f"{cls.qualname}.{fn.name}")
-        val = mini.run_function(fn, [selfobj, element], {})
+        val = mini.run_top(fn, [selfobj, element], {}, selfobj)
         if isinstance(val, str) and "<L>" in val:
             return "lower(" in val.lower()
     except Unsupported:
